@@ -407,3 +407,18 @@ register('C04', 'proof',
                       'instances; per machine it is at most AllPending',
                       'payload record shapes (REC_KEYS)', 'expected_load in [0,100] (C18)'],
          extra='pyvc.structural_c04')
+register('C19', 'proof',
+         'Clause 1 only (the prediction leaves every status as it was), and only its central mechanism: proved for all '
+         'inputs on the real constructor of the model command that every object a model command can write through - the '
+         'mock ProcessStatus, its info_map, its running_identifiers and every per-instance payload of that map - is '
+         'allocated by the constructor (so the writes of feed_model / start cannot reach a live status), that the live '
+         'process is not modified, and structurally that the model classes override exactly the interacting methods with '
+         'bodies that never name the transport or the listener.',
+         not_decided=['clause 2 (the predicted placement equals the placement of a real start): a relational property of two '
+                      'executions on cloned clusters',
+                      'the frame of the whole call tree of test_start_application / test_start_processes (store_application -> '
+                      'resolve_rules writes the live rules; Starter.after is not overridden by the model and may call the real '
+                      'stopper) is NOT under contract: only the model-object isolation is proved',
+                      'feed_model / StarterModel.next themselves (comprehensions over three nested plans)'],
+         assumptions=['ProcessStatus contracts of C11'],
+         extra='pyvc.structural_c19')
